@@ -22,7 +22,8 @@ def run(ctx):
     ]
     ctx.regen()
     ctx.extra_lean_dirs = ["C13", "C01"]   # the lexer port lives in C13/Lexer.lean; TreeLevel.lean uses C01's runDriver (Stream.lean)
-    ctx.prove(["TsVerif.C09.Props", "TsVerif.C09.Bom", "TsVerif.C09.TreeLevel"], "TsVerif/C09/Audit.lean")
+    ctx.prove(["TsVerif.C09.Props", "TsVerif.C09.Bom", "TsVerif.C09.TreeLevel", "TsVerif.C09.Round11", "TsVerif.C09.VersionOrder"], "TsVerif/C09/Audit.lean")
+    ctx.validate_compare_versions(20000 if ctx.tier == "thorough" else 4000)
     driver = ctx.build_driver("tsv-c09")
     explorer = ctx.cargo_bin("c09")
     cunit = ctx.cunit("cunit_c13")
